@@ -59,7 +59,7 @@ CHECKS = {
             "the dimensions the code computes, compare tool exits 0 iff metadata and all samples are equal, reported counts = number of differing "
             "positions, metadata precedence, exit-code set, directory mode. PARTIAL: numpy object arithmetic, json, str/int, the file system and the "
             "float PSNR are trusted; domain: every component non-empty, excursions >= 1.",
-            C_TIE + "intlog2 comes from the regenerated translation of vc2_math.py (tie T).",
+            C_TIE + "intlog2, picture_dimensions, video_depth and the bytes-per-sample expression come from the regenerated translation of vc2_math.py, video_parameters.py and file_format.py (tie T); the hand dimension/depth/bytes-per-sample functions are proved equal to them (C23_dimensions_match_source, C23_bytes_per_sample_matches_source).",
             "Coq proofs over hand models of file_format / picture_compare + differential run on real files at depths 1..64 (and beyond)",
             "DESIGN.md 3 C23"),
     "C22": (True,
@@ -67,7 +67,7 @@ CHECKS = {
             "line counts and plane sizes equal to dimensions_and_depths for any regular format. PARTIAL: the float colour pipeline (numpy, matrices, "
             "transfer functions, PIL) is not modelled and is covered only by running every generator over a sweep of regular formats "
             "(depths 1..63 plus a probe at >= 64 bits: one known finding).",
-            C_TIE + "intlog2 from the regenerated translation (tie T).",
+            C_TIE + "intlog2, picture_dimensions and video_depth from the regenerated translation (tie T); the hand dimension functions are proved equal to them (C22_component_dims_match_source).",
             "Coq proofs over the integer tail of the generators + oracle sweep of all generators on regular formats",
             "DESIGN.md 3 C22"),
     "C13": (True,
@@ -176,7 +176,7 @@ CHECKS = {
             "Theorems: for arbitrary integer coefficient arrays the clipped+offset samples lie in [0, 2^depth-1] with depth = intlog2(excursion+1) >= 1; pad removal "
             "yields exactly width x height; picture number = coded number; over any unit list one picture is output per picture unit and per completed fragmented "
             "picture, carrying the coded number. The inverse transform itself is C11's.",
-            C_TIE + "clip/intlog2 are tie T.",
+            C_TIE + "clip/intlog2/picture_dimensions/video_depth are tie T; the hand dimension and depth functions are proved equal to the translated source (C09_dimensions_and_depth_match_source).",
             "Coq proofs on hand models of picture_decode's tail and the call sites + differential run on re-packed extreme/random/dangling coefficient streams",
             "DESIGN.md 3 C09"),
     "C01": (True,
